@@ -647,7 +647,10 @@ def value_pool(draw, dtype, min_size=1, free=False, kinds=None):
         lo, hi = INT_RANGE[dtype]
         pool = draw(spread_ints(size, max(lo, -10 ** 9), min(hi, 10 ** 9)))
     while len(pool) < min_size:                       # collisions are only possible for tiny bases
-        pool.append(max(pool) + 1)
+        nxt = max(pool) + 1
+        if dtype in INT_RANGE and nxt > INT_RANGE[dtype][1]:      # stay inside the dtype (32767 + 1 is not an int16)
+            nxt = next(v for v in range(INT_RANGE[dtype][1], INT_RANGE[dtype][0] - 1, -1) if v not in pool)
+        pool.append(nxt)
     return kind, pool
 
 
